@@ -106,10 +106,16 @@ def generate(rng, n, tier):
             x = _samples(rng, k)
             w, ex = _weights(rng, k)
             tol = rng.choice([0.0, 0.0, 0.0, 0.125, 0.25])
+            order = rng.choice([0, 1, 2, 2, 3, 4])
+            f = [rng.choice([0, 0, 1, -1, 0.5]), rng.choice([1, -1, 2, 0, -0.5]), rng.choice([0, 1, -2.5])]
             if rng.random() < 0.08:
                 x = [v + 2.0 ** 20 for v in x]      # a large common offset (exactly representable): variance and spread are those of the scatter
-            yield dict(kind=kind, x=x, w=w, exact=ex, tol=tol, order=rng.choice([0, 1, 2, 2, 3, 4]),
-                       f=[rng.choice([0, 0, 1, -1, 0.5]), rng.choice([1, -1, 2, 0, -0.5]), rng.choice([0, 1, -2.5])])
+                # only what is well conditioned next to such an offset: second moments (an error d of the mean enters them as d*d) of the
+                # samples themselves or of a unit-slope function of them - third and fourth moments and squares of 2**20 lose, legitimately,
+                # more digits to cancellation in binary64 than the comparison allows
+                order = rng.choice([0, 1, 2, 2])
+                f = [f[0], rng.choice([1, -1]), 0]
+            yield dict(kind=kind, x=x, w=w, exact=ex, tol=tol, order=order, f=f)
         elif kind == "impose":
             k = 0 if rng.random() < 0.03 else _n(rng)
             x = _samples(rng, k)
